@@ -20,6 +20,54 @@ def local_ref(path, ctx):
     return p[-1]
 
 
+_REL = {"Gt": ">", "Lt": "<", "Ge": ">=", "Le": "<=", "Eq": "==", "Ne": "!="}
+
+
+def to_mmt(tokens):
+    """The specification's tokens (gotranx syntax) in Myokit's syntax: Conditional(c, a, b) -> if(c, a, b),
+    Gt(a, b) -> (a > b), And/Or/Not -> and/or/not."""
+    def args_of(i):
+        # tokens[i] == "(" -> (list of argument token lists, index after the matching ")")
+        depth, cur, out, j = 0, [], [], i
+        while True:
+            t = tokens[j]
+            if t == "(":
+                depth += 1
+                if depth > 1:
+                    cur.append(t)
+            elif t == ")":
+                depth -= 1
+                if depth == 0:
+                    out.append(cur)
+                    return out, j + 1
+                cur.append(t)
+            elif t == "," and depth == 1:
+                out.append(cur)
+                cur = []
+            else:
+                cur.append(t)
+            j += 1
+
+    out, i = [], 0
+    while i < len(tokens):
+        t = tokens[i]
+        if t in ("Conditional", "And", "Or", "Not") or t in _REL:
+            args, i = args_of(i + 1)
+            a = [" ".join(to_mmt(x)) for x in args]
+            if t == "Conditional":
+                out.append(f"if({a[0]}, {a[1]}, {a[2]})")
+            elif t in _REL:
+                out.append(f"(({a[0]}) {_REL[t]} ({a[1]}))")
+            elif t == "Not":
+                out.append(f"(not ({a[0]}))")
+            else:
+                out.append("(" + f" {t.lower()} ".join(f"({x})" for x in a) + ")")
+            continue
+        out.append(t)
+        i += 1
+    return out
+
+
 def render_mmt(rec):
     vars_ = rec["vars"]
     comps = {}
@@ -32,7 +80,7 @@ def render_mmt(rec):
     lines += ["", "[engine]", "time = 0 bind time", ""]
 
     def expr(path):
-        return " ".join(local_ref(t, path) if (t in vars_ or t.startswith("dot(")) else t for t in vars_[path]["toks"])
+        return " ".join(to_mmt([local_ref(t, path) if (t in vars_ or t.startswith("dot(")) else t for t in vars_[path]["toks"]]))
 
     def emit(path, depth):
         name = path.split(".")[-1]
